@@ -124,6 +124,7 @@ def c06c(ck, prog):
         stream (bytes left over from the previous read are parsed first) or the read must append behind kept bytes."""
     from .lib.bound import natural_loops
     f = prog.one(r"^ohkami::request::Request::read::\{closure#0\}$")
+    f = prog.awaited_inlined(f)      # the receive loop may live in an awaited helper of Request
     reads = [c for c in f.calls() if re.search(STREAM_READ, c.callee or "") or re.search(STREAM_READ, c.decl or "")]
     if len(reads) != 1:
         raise AnchorLost("expected one stream read in Request::read, found %d" % len(reads))
